@@ -149,6 +149,8 @@ def check(rep, tier, seed):
             if so != want:
                 rep.fail(kind="property-oracle", cls="view:identity", case=case[:300], argv=["sfs", "view"], stdin=job[1].decode(),
                          observed=so.decode()[:300], expected=want.decode()[:300], detail="view without options must reproduce its input")
+    from common import invocation_variants
+    invocation_variants(rep, "view:invocation-form", [j for j, (rc, so, se) in zip(jobs_comb, comb) if rc == 0], rng, n=10 if tier == "quick" else 80)
     # inadmissible option values: the pipeline must stop with an error, whatever else is asked for - axes named twice
     # (adjacent or not), out of range, all axes; targets larger than the source on one axis (also when the element count
     # happens to be the same: transposed shapes), of another dimensionality (same element count or not), zero
